@@ -23,7 +23,7 @@
    No well-formedness condition on the configuration is needed for C08. *)
 From Coq Require Import List ZArith NArith Bool.
 From PC.Base Require Import Assoc.
-From PC.Sup Require Import Model Monitors Sim RelCore Agreement RelC08 RelC08b SpecC08 ExC08.
+From PC.Sup Require Import Model Monitors Sim RelCore Agreement RelC08 RelC08b RelC08c SpecC08 CallC08 ExC08.
 Import ListNotations.
 
 (* Every history of the model that did not go through the dup or the zombie window satisfies the
@@ -81,6 +81,79 @@ Theorem C08_one_live : forall cs ord evs s,
 Proof. exact C08_one_live_combined_lemma. Qed.
 Print Assumptions C08_one_live.
 
+(* Restart clause, second half ("launched only after the previous one has exited"), in a stronger form:
+   whenever an instance of process n is CREATED (trace point NewProcess(i, n) of runProcess - in the
+   hardened model only a thread inside Run's spawn loop, StartProcess(n) after its check, or
+   RestartProcess(n) after the stop and the wait can emit it), no instance of n has a command alive.
+   The new instance's launch comes later on its own goroutine, so it is launched only after every
+   previous instance of the process has exited.  Same hypotheses as C08_combined.
+   (The first half, "exactly one new instance per successful call", is a per-thread protocol fact that
+   mon_C08 does not encode; see notes/C08.md for what a proof needs.) *)
+Theorem C08_restart_after_exit : forall cs ord evs s,
+  accept (init cs ord) evs = Some s -> w_dup (final_obs cs evs) = false ->
+  w_zombie (final_obs cs evs) = false \/ no_stop_pending evs = true ->
+  forall pre th i n post, evs = pre ++ (th, ENewInst i n) :: post ->
+  forall j, get j (lv_inst (lv_of pre)) <> Some (n, true).
+Proof. exact C08_created_after_exit_lemma. Qed.
+Print Assumptions C08_restart_after_exit.
+
+(* ---- the clauses about the calls themselves (hardened model; NO window hypothesis) ---------------------
+   cv_of pre (Sup/CallC08.v) is a per-thread view of the history prefix: for the API call a thread is
+   executing it records the operation (c_op), the outcome of the call's "is it running?" check
+   (c_found: the found-flag of the trace point start_checked / stop_checked / restart_checked, i.e. of
+   the thread's registry lookup), and how many instances the thread has created (NewProcess: c_created)
+   and spawned (c_spawned) and how many stops it has requested (c_stops) since the call began. *)
+
+(* StartProcess(n) returns success iff its check found no running instance and n is configured; then it
+   has spawned exactly one instance; otherwise it has created nothing; it never requests a stop.
+   In particular: a start of an unknown name fails and creates nothing. *)
+Theorem C08_start_iff_none : forall cs ord evs s, accept (init cs ord) evs = Some s ->
+  forall pre th ok post, evs = pre ++ (th, EApiReturn ok) :: post ->
+  forall c n, get th (cv_of pre) = Some c -> c_op c = OpStart n ->
+  (ok = true <-> c_found c = Some false /\ has n cs = true) /\
+  c_spawned c = (if ok then 1%nat else 0%nat) /\ (ok = false -> c_created c = 0%nat) /\ c_stops c = 0%nat.
+Proof. exact C08_start_call_lemma. Qed.
+Print Assumptions C08_start_iff_none.
+
+(* RestartProcess(n) returns success iff n is configured, and then it has spawned EXACTLY ONE new
+   instance; for an unknown name it fails and creates nothing; it requests a stop only if its check
+   found an instance.  (That the new instance is created only after the old one exited is
+   C08_restart_after_exit above.) *)
+Theorem C08_restart_one_new : forall cs ord evs s, accept (init cs ord) evs = Some s ->
+  forall pre th ok post, evs = pre ++ (th, EApiReturn ok) :: post ->
+  forall c n, get th (cv_of pre) = Some c -> c_op c = OpRestart n ->
+  ok = has n cs /\ c_spawned c = (if ok then 1%nat else 0%nat) /\ (ok = false -> c_created c = 0%nat) /\
+  (c_found c <> Some true -> c_stops c = 0%nat).
+Proof. exact C08_restart_call_lemma. Qed.
+Print Assumptions C08_restart_one_new.
+
+(* StopProcess(n) returns success iff its check found an instance; it never creates anything; a failing
+   stop has requested no stop *)
+Theorem C08_stop_call : forall cs ord evs s, accept (init cs ord) evs = Some s ->
+  forall pre th ok post, evs = pre ++ (th, EApiReturn ok) :: post ->
+  forall c n, get th (cv_of pre) = Some c -> c_op c = OpStop n ->
+  (ok = true <-> c_found c = Some true) /\ c_spawned c = 0%nat /\ c_created c = 0%nat /\ (ok = false -> c_stops c = 0%nat).
+Proof. exact C08_stop_call_lemma. Qed.
+Print Assumptions C08_stop_call.
+
+(* instances are created / spawned only by a thread inside Run, inside StartProcess(n) whose check found
+   none running and which has not spawned yet, or inside RestartProcess(n) which has not spawned yet *)
+Theorem C08_create_in_call : forall cs ord evs s, accept (init cs ord) evs = Some s ->
+  forall pre th i n post, (evs = pre ++ (th, ENewInst i n) :: post \/ evs = pre ++ (th, ESpawn i n) :: post) ->
+  create_ok (get th (cv_of pre)) n = true.
+Proof. exact C08_create_in_call_lemma. Qed.
+Print Assumptions C08_create_in_call.
+
+(* non-vacuity of the call theorems: the six calls of the 92-event history ex_seq and their views *)
+Example C08_calls_example : ret_views [] ex_seq =
+  [(11%N, Some (mkCall (OpStart 1) (Some true) 0%nat 0%nat 0%nat), false);
+   (12%N, Some (mkCall (OpStop 1) (Some true) 0%nat 0%nat 1%nat), true);
+   (1%N,  Some (mkCall OpRun None 1%nat 1%nat 0%nat), true);
+   (13%N, Some (mkCall (OpStart 1) (Some false) 1%nat 1%nat 0%nat), true);
+   (14%N, Some (mkCall (OpRestart 1) (Some true) 1%nat 1%nat 1%nat), true);
+   (15%N, Some (mkCall (OpStop 9) (Some false) 0%nat 0%nat 0%nat), false)].
+Proof. exact ex_seq_calls. Qed.
+
 (* the monitor implies the declarative statement for ANY history (no model involved) *)
 Theorem C08_monitor_meaning : forall cs evs, holds_C08 cs evs = true -> one_live evs.
 Proof. exact holds_C08_one_live. Qed.
@@ -94,7 +167,7 @@ Print Assumptions C08_refuted.
 
 (* Neither hypothesis of C08_main can be dropped: a failing accepted history that is outside the
    zombie window (ex_dup), one outside the dup window (ex_zombie: RestartProcess on an instance that is
-   about to launch), and one on which w_zombie is the ONLY window flag set (ex_zombie_only). *)
+   about to launch; its flags are zombie and commit). *)
 Theorem C08_dup_needed : exists cs ord evs s, accept (init cs ord) evs = Some s /\
   w_zombie (final_obs cs evs) = false /\ holds_C08 cs evs = false.
 Proof. exact C08_dup_needed_lemma. Qed.
@@ -105,10 +178,14 @@ Theorem C08_zombie_needed : exists cs ord evs s, accept (init cs ord) evs = Some
 Proof. exact C08_zombie_needed_lemma. Qed.
 Print Assumptions C08_zombie_needed.
 
-Theorem C08_zombie_only : exists cs ord evs s, accept (init cs ord) evs = Some s /\
-  windows_of (final_obs cs evs) = [true; false; false; false; false; false; false] /\ holds_C08 cs evs = false.
-Proof. exact C08_zombie_only_lemma. Qed.
-Print Assumptions C08_zombie_only.
+(* The first version of the model also accepted a failing history on which w_zombie was the ONLY flag
+   (ex_zombie_only, a "Pending" write for an old instance long after its creation).  The hardened model
+   (staged creation: NewProcess, Pending, registration, spawn in program order on one thread) rejects it: *)
+Example C08_zombie_only_rejected :
+  accept (init cs_disabled false) ex_zombie_only = None /\
+  fst (accept_prefix (init cs_disabled false) ex_zombie_only 0) = 31%nat /\
+  nth 31 ex_zombie_only (0%N, EResume) = (99%N, EState 100%N SPending).
+Proof. exact ex_zombie_only_rejected. Qed.
 
 (* (kept from the interim statement file) every accepted history keeps the observer's picture, on which
    the monitor is evaluated, in agreement with the model state *)
